@@ -303,6 +303,10 @@ func c02(c *Ctx) {
 
 	c.R.Rule("R2.6", "claim secret source: the destination Apply needs the source secret's controller UID == from.GetUID()", 3,
 		"a claim could use Crossplane to copy a secret its XR does not own")
+	// the chain the claim reconciler calls the propagators through decides whether a refusal surfaces (R2.0 covers it)
+	if ch := c.P.Method("internal/controller/apiextensions/claim", "ConnectionPropagatorChain", "PropagateConnection"); ch != nil {
+		c.mech(ch)
+	}
 	if pc := c.method("internal/controller/apiextensions/claim", "APIConnectionPropagator", "PropagateConnection"); pc != nil {
 		ap := calls(pc, applicatorApply)
 		fcs := foreignControllerTests(pc)
